@@ -309,6 +309,16 @@ def overflow_discharged(prog, body, site, iv=None):
         if a is None or b is None or tr is None:
             return False, "operand range unknown"
         op = m["op"]
+        if op == "Sub":
+            # relational special case: a - min(.., a) cannot underflow
+            pb = F.op_place(dep.resolve_copy(body, m["b"]))
+            pa = F.op_place(dep.resolve_copy(body, m["a"]))
+            if pb is not None and pa is not None and not pb[1]:
+                c = dep.single_def_call(body, pb[0])
+                if c is not None and (F.callee_key(c[1]) or "").endswith("cmp::Ord::min"):
+                    for arg in F.call_args(c[1]):
+                        if F.op_place(dep.resolve_copy(body, arg)) == pa:
+                            return True, "subtrahend is min(.., minuend)"
         if op == "Add":
             r = (a[0] + b[0], a[1] + b[1])
         elif op == "Sub":
